@@ -1,5 +1,5 @@
 """C11 — exactly the needed files are on disk: nothing live deleted, nothing dead kept."""
-from gen import lib, dbh, crash, proto, fault, names
+from gen import sched, lib, dbh, crash, proto, fault, names
 
 PROP_FILE = "props/C11.v"
 WANT = ("dir",)
@@ -43,11 +43,14 @@ def suites(tier, seed, rng):
             crash.CrashSuite(gen_crash(tier, rng), WANT),
             proto.ProtoSuite(gen_proto(tier, rng)),
             names.NamesSuite(names.gen_cases(tier, rng)),
+            sched.SchedSuite(sched.gen_cases(tier, rng, {"walgc"})),
             fault.FaultSuite(["%s # %d" % (" ".join(fault.gen_history(rng, "f%d" % i, rng.choice([12, 20]))), 2 if tier == "quick" else 20)
                               for i in range(3 if tier == "quick" else 60)])]
 
 
 def replay_suites(rp):
+    if rp.get("suite") == "sched":
+        return [sched.SchedSuite([rp["case"]])]
     if rp.get("suite") == "proto":
         return [proto.ProtoSuite([rp["case"]])]
     if rp.get("suite") == "fault":
@@ -60,6 +63,8 @@ def replay_suites(rp):
 
 
 def still_fails(suite, case, workdir):
+    if suite == "sched":
+        return sched.still_fails(case, workdir)
     if suite == "proto":
         return proto.still_fails(case, workdir)
     if suite == "crash":
